@@ -21,7 +21,7 @@ from ..report import AnalysisError
 from ..term import Resolver, pmatch, find_all, abstract, anf_of
 from ..seq import Layouts, UNKNOWN, show
 
-FLOORS = {"state-refreshed": 1, "float-arithmetic": 1, "lml-form": 2, "lml-gradient-form": 2, "factor-of": 2, "loo-form": 3, "loo-gradient-form": 2,
+FLOORS = {"component-gradients-exact": 15, "state-refreshed": 1, "float-arithmetic": 1, "lml-form": 2, "lml-gradient-form": 2, "factor-of": 2, "loo-form": 3, "loo-gradient-form": 2,
           "slice-layout": 7, "bounds-passed": 2, "multistart": 1, "selector-wiring": 2}
 
 
@@ -154,7 +154,14 @@ def loo_expander(prog, ci):
 
 
 def run(prog, tier):
+    # the score gradients scatter the component derivatives (d K / d theta_k, d mean / d theta_k) into the hyper-parameter vector in
+    # list order: they are the true gradient only if each component hands its derivatives over exact and in parameter order -
+    # the clause C11 shares with C10, decided there
+    from .common import borrow
+    shared = borrow(prog, tier, "C10", {"mean-gradient", "gradient-is-derivative", "composition-order"}, "component-gradients-exact",
+                    "the marginal-likelihood and LOO gradients are assembled from the kernels' and means' own gradient lists")
     obs, info = [], []
+    obs.extend(shared)
     problems = []
 
     # ---------------------------------------------------------------- gradient lists are walked in order
